@@ -116,6 +116,7 @@ type mfault struct {
 	File int    `json:"file"`
 	At   string `json:"at"`
 	Kind string `json:"kind"`
+	Nth  int    `json:"nth"`
 }
 
 type mcycle struct {
@@ -130,6 +131,7 @@ type mcycle struct {
 type scenario struct {
 	HotRes  bool     `json:"hotRes"`
 	ColdRes bool     `json:"coldRes"`
+	Overlap bool     `json:"overlap"`
 	Cycles  []mcycle `json:"cycles"`
 }
 
@@ -159,6 +161,7 @@ type cycleReport struct {
 }
 
 type witness struct {
+	Overlap bool          `json:"candidate_list_worked_twice"`
 	HotRes  bool          `json:"hot_resident"`
 	ColdRes bool          `json:"cold_resident"`
 	Sizes   []int         `json:"rows_per_file"`
@@ -322,7 +325,10 @@ func buildTemplate(duck *sql.DB, base string, hotRes, coldRes bool, variant int)
 func rulesFor(fs []mfault, alt int) []rule {
 	var rs []rule
 	for _, f := range fs {
-		r := rule{File: f.File, Nth: 1, At: f.At + "/" + f.Kind}
+		r := rule{File: f.File, Nth: f.Nth, At: f.At + "/" + f.Kind}
+		if r.Nth < 1 {
+			r.Nth = 1
+		}
 		switch f.Kind + ":" + f.At {
 		case "crash:scan":
 			r.Op, r.Tier, r.Action, r.File = "ListObjects", "hot", "crash_before", 0
@@ -337,7 +343,7 @@ func rulesFor(fs []mfault, alt int) []rule {
 		case "crash:src_deleted":
 			r.Op, r.Tier, r.Action = "Delete", "hot", "crash_after"
 		case "crash:rec_delete":
-			r.Op, r.Tier, r.Action, r.Nth = "Delete", "hot", "crash_before", 2
+			r.Op, r.Tier, r.Action = "Delete", "hot", "crash_before"
 		case "fail:copy_begin":
 			r.Op, r.Tier, r.Action = "WriteReader", "cold", "fail"
 		case "fail:copy_mid":
@@ -355,7 +361,7 @@ func rulesFor(fs []mfault, alt int) []rule {
 		case "fail:rec_exists":
 			r.Op, r.Tier, r.Action = "Exists", "hot", "fail"
 		case "fail:rec_delete":
-			r.Op, r.Tier, r.Action, r.Nth = "Delete", "hot", "fail", 2
+			r.Op, r.Tier, r.Action = "Delete", "hot", "fail"
 		default:
 			r.Op = "?"
 		}
@@ -533,7 +539,7 @@ func main() {
 		runTrace := filepath.Join(base, "run.ndjson")
 		os.Remove(runTrace)
 		appendLine(runTrace, map[string]interface{}{"ev": "begin", "run": idx})
-		w := witness{HotRes: sc.HotRes, ColdRes: sc.ColdRes, Sizes: sizeVariants[variant], Run: idx}
+		w := witness{Overlap: sc.Overlap, HotRes: sc.HotRes, ColdRes: sc.ColdRes, Sizes: sizeVariants[variant], Run: idx}
 		var viol []finding
 		var drift string
 		realised := true
@@ -549,9 +555,13 @@ func main() {
 			pp := filepath.Join(base, "plan.json")
 			os.WriteFile(pp, pb, 0o644)
 			before, _ := os.ReadFile(runTrace)
+			action := "cycle"
+			if sc.Overlap {
+				action = "overlap"
+			}
 			t0 := time.Now()
 			cmd := exec.Command(self, "-hot", filepath.Join(dir, "hot"), "-cold", filepath.Join(dir, "cold"),
-				"-meta", filepath.Join(dir, "meta.db"), "-plan", pp, "-trace", runTrace, "-action", "cycle")
+				"-meta", filepath.Join(dir, "meta.db"), "-plan", pp, "-trace", runTrace, "-action", action)
 			var stderr bytes.Buffer
 			cmd.Stderr = &stderr
 			cmd.Env = append(os.Environ(), "TMPDIR="+base, "GOMAXPROCS=2")
@@ -699,6 +709,9 @@ func main() {
 			res.Drift = append(res.Drift, finding{Signature: "state-differs-from-Tiering.tla:" + faultPath(sc.Cycles), Witness: w2})
 		}
 		for _, v := range viol {
+			if sc.Overlap {
+				v.Signature += ":candidates-worked-twice"
+			}
 			sigCount[v.Signature]++
 			if sigCount[v.Signature] <= 2 {
 				v.Witness = w
@@ -716,7 +729,7 @@ func main() {
 		f.Close()
 		res.Spans = append(res.Spans, runSpan{Run: idx, First: line + 1, Last: line + n})
 		line += n
-		nontrivial[fmt.Sprintf("%v|%v|%d|%s", sc.HotRes, sc.ColdRes, variant, faultPath(sc.Cycles))] = true
+		nontrivial[fmt.Sprintf("%v|%v|%v|%d|%s", sc.Overlap, sc.HotRes, sc.ColdRes, variant, faultPath(sc.Cycles))] = true
 		if len(res.Samples) < 3 && len(sc.Cycles) > 1 && idx%37 == 5 {
 			res.Samples = append(res.Samples, w)
 		}
